@@ -568,15 +568,8 @@ fn pattern(n: usize, salt: usize) -> Vec<u8> {
 fn run_strict_case(tr: &mut Tr, c: &Value, rep: &mut Report, cnt: &mut Counts) {
     let max = j_usize(&c["max"]) as u32;
     let strict = jbool(&c["strict"]);
-    let plen = j_usize(&c["plen"]);
-    let pdu = Pdu::PData {
-        data: vec![PDataValue {
-            presentation_context_id: 1,
-            value_type: PDataValueType::Data,
-            is_last: true,
-            data: pattern(plen - 6, plen),
-        }],
-    };
+    // the PDU (of any kind) whose PDU-length field is `plen` is given by TLC (StrictPdu in Gen_PS38Pdu.tla)
+    let pdu = pdu_from_json(&c["pdu"]);
     let pj = pdu_to_json(&pdu);
     match write_real(&pdu) {
         Ok(Ok(bytes)) => {
@@ -1522,6 +1515,47 @@ fn main() {
                     }
                 }
                 rep.extra.insert("kinds".into(), json!(kinds));
+                // real-size family: receivers configured with the minimum / a small / the usual maximum PDU length,
+                // 2..=6 P-DATA-TF PDUs each close to that maximum, delivered coalesced in large single reads or in
+                // segments of max+5 / max+6 / max+7 bytes; successive receives share the buffer
+                let nbig = args.get("big").map(|s| s.parse::<usize>().unwrap()).unwrap_or(0);
+                let mut big_cases = 0usize;
+                for i in 0..nbig {
+                    let max = [1018u32, 4096, 16384][i % 3];
+                    let k = 2 + rng.below(5) as usize;
+                    let pdus: Vec<Pdu> = (0..k)
+                        .map(|j| {
+                            // PDU length field = 6 + data length, between max-9 and max
+                            let plen = max as usize - rng.below(10) as usize;
+                            Pdu::PData {
+                                data: vec![PDataValue {
+                                    presentation_context_id: (2 * j + 1) as u8,
+                                    value_type: if j % 2 == 0 { PDataValueType::Data } else { PDataValueType::Command },
+                                    is_last: j + 1 == k,
+                                    data: pattern(plen - 6, i * 7 + j),
+                                }],
+                            }
+                        })
+                        .collect();
+                    let total: usize = pdus.iter().map(|p| write_real(p).unwrap().unwrap().len()).sum();
+                    let segs: Vec<usize> = match (i / 3) % 6 {
+                        0 => vec![total],
+                        1 => vec![4096; total / 4096 + 1],
+                        2 => vec![65536; total / 65536 + 1],
+                        3 => vec![max as usize + 5; total / (max as usize + 5) + 1],
+                        4 => vec![max as usize + 6; total / (max as usize + 6) + 1],
+                        _ => vec![max as usize + 7; total / (max as usize + 7) + 1],
+                    };
+                    segs_total += segs.len();
+                    rep.cases += 1;
+                    for is_async in [false, true] {
+                        let o = run_wire_case(&mut tr, &rt, &pdus, &segs, is_async, max, i % 2 == 0);
+                        wire_cases += 1;
+                        big_cases += 1;
+                        events += o.events;
+                    }
+                }
+                rep.extra.insert("big_cases".into(), json!(big_cases));
             }
             rep.extra.insert("wire_cases".into(), json!(wire_cases));
             rep.extra.insert("segments".into(), json!(segs_total));
